@@ -34,6 +34,7 @@ inductive RAct where
   | data (k : Nat) (scribble : Bool)   -- deliver up to `k` bytes; with `scribble`, first overwrite the whole slice with 0xEE
   | eof                                 -- `Ok(0)` without consuming
   | err (kind : ErrKind)
+  | panic                               -- the reader panics (reported to the model as error kind 99)
 deriving Repr, DecidableEq
 
 inductive WAct where
@@ -67,6 +68,7 @@ def SRW.read (s : SRW) (dest : List Byte) : SRW × RdRes × List Byte × Call :=
     ({ s with data := s.data.drop n, racts := rest }, .ok n, s.data.take n ++ base.drop n, .read s.id dest.length (.ok n))
   | .eof => ({ s with racts := rest }, .ok 0, dest, .read s.id dest.length (.ok 0))
   | .err k => ({ s with racts := rest }, .error k, dest, .read s.id dest.length (.error k))
+  | .panic => ({ s with racts := rest }, .error 99, dest, .read s.id dest.length (.error 99))
 
 def SRW.write (s : SRW) (buf : List Byte) : SRW × RdRes × Call :=
   let (a, rest) := match s.wacts with
